@@ -119,9 +119,14 @@ class Select(TypedExpression):
                     if default_layout.indent is not None
                     else indent + 2
                 )
-                default_sep = "\n\n" if default_layout.blank_line else "\n"
                 default_str = self.default.rebuild(indent=default_indent, inline=True)
                 default_before = list(self.default_before)
+                # Blank lines around comments are already part of default_before.
+                default_sep = (
+                    "\n\n"
+                    if default_layout.blank_line and not default_before
+                    else "\n"
+                )
                 inline_comment = ""
                 if default_before:
                     first = default_before[0]
